@@ -193,7 +193,7 @@ let runs args = match args with
         let t = to_list to_nat text and rx = mk_rx (to_rxtab rxtab) in
         let entry = to_nat entry and p = to_nat pos and full = to_bool full in
         let body = (match nth_error g entry with Some (_, b) -> b | None -> failwith "entry") in
-        let x = (match exec lf g fs named ign t rx fuel body (fresh p) with
+        let x = (match exec lf g fs ign t rx fuel body (fresh p) with
           | Done s -> if s.status then "(done true " ^ pv s.result ^ " " ^ pn s.pos ^ ")"
                       else "(done false " ^ pn s.pos ^ ")"
           | OutOfFuel -> "fuel"
@@ -202,7 +202,7 @@ let runs args = match args with
         let sp = (match spec with
           | Fuel -> "fuel" | Raise -> "raise" | Fails -> "fails"
           | Match (v, q) -> "(match " ^ pv v ^ " " ^ pn q ^ ")") in
-        let pm = (match parse_model lf g fs named ign t rx fuel entry p full with
+        let pm = (match parse_model lf g fs ign t rx fuel entry p full with
           | Return v -> "(return " ^ pfv v ^ ")"
           | Partial (v, fp) -> "(partial " ^ pfv v ^ " " ^ pfpos fp ^ ")"
           | ParseErr i -> "(perr " ^ pn i ^ ")"
